@@ -121,10 +121,13 @@ def obligations(ctx):
         ob.finish(agg, lambda m, info=None: ("e2n_c10_pointers", []))
 
     # ------------------------------------------------------------------ spending inputs: index = position in the sorted input set
-    ob = Obligation(ctx, "c10_e2_spend_redeemer_index", "1-%d inputs in sorted-set order, every Plutus / native-script / key pattern; script inputs registered under one or two script hashes" % maxn,
+    ob = Obligation(ctx, "c10_e2_spend_redeemer_index", "1-%d inputs in sorted-set order, every Plutus / native-script / key pattern, at most one key input with a stale Plutus witness entry; script inputs registered under one or two script hashes" % maxn,
                     ["TxInputsBuilder::get_plutus_input_scripts"])
     agg = Engine(P)
-    for pat in [p for n in range(1, maxn + 1) for p in itertools.product("PNK", repeat=n)]:
+    # S = an input that is key-locked NOW (no script hash stored with it) while a Plutus witness registered for it earlier is
+    # still in required_witnesses.scripts: reachable by adding the same outpoint first as a script input and then again as a
+    # key input (the input entry is overwritten, the witness entry is not). It must get no redeemer.
+    for pat in [p for n in range(1, maxn + 1) for p in itertools.product("PNKS", repeat=n) if p.count("S") <= 1]:
         E = Engine(P, max_loop=len(pat) + 4)
         install_clone_recorders(E)
         E.extra_intrinsics[r"PlutusWitnesses::len$"] = lambda E_, c, a: VInt(len(VM.deref(E_, a[0]).items), "usize")
@@ -132,9 +135,9 @@ def obligations(ctx):
             inputs, by_hash = [], {}
             for j, k in enumerate(pat):
                 tbi = E.mk_struct("TxBuilderInput", input=VLazy("txin%d" % j, "TransactionInput"), amount=VLazy("amt%d" % j, "utils::Value"))
-                inputs.append(VStruct("()", [VLazy("txin%d" % j, "TransactionInput"), VStruct("()", [tbi, opt(VLazy("sh%d" % (j % 2), "ScriptHash")) if k != "K" else opt(None)])]))
+                inputs.append(VStruct("()", [VLazy("txin%d" % j, "TransactionInput"), VStruct("()", [tbi, opt(VLazy("sh%d" % (j % 2), "ScriptHash")) if k in "PN" else opt(None)])]))
                 if k != "K":
-                    w = opt(VEnum("ScriptWitnessType", "PlutusScriptWitness", [VLazy("item%d" % j, "PlutusWitness")])) if k == "P" else \
+                    w = opt(VEnum("ScriptWitnessType", "PlutusScriptWitness", [VLazy(("item%d" if k == "P" else "stale%d") % j, "PlutusWitness")])) if k in "PS" else \
                         opt(VEnum("ScriptWitnessType", "NativeScriptWitness", [VLazy("ns%d" % j, "NativeScriptSourceEnum")]))
                     by_hash.setdefault(j % 2, []).append(VStruct("()", [VLazy("txin%d" % j, "TransactionInput"), w]))
             scripts = VSeq([VStruct("()", [VLazy("sh%d" % h, "ScriptHash"), VSeq(v, "map")]) for h, v in sorted(by_hash.items(), reverse=True)], "map")
